@@ -385,6 +385,8 @@ impl<'a, 'b> GeneratorState<'a> {
             _ => unreachable!(),
         };
         self.tmp_in_use = false;
+        // The flags now describe the 16-bit difference, not whatever they described before
+        self.flags = FlagsState::Unknown;
         res
     }
 
